@@ -59,6 +59,12 @@ type Link struct {
 	// scheduler can place other tasks between a sender's last check and the moment
 	// its envelope reaches the transport (set by families that look at that window)
 	PreWriteYield bool
+	// AmbiguousCancel: a write whose context ends while the envelope is under way
+	// reports the context's error although the envelope was delivered (what a
+	// request/response transport does when the acknowledgement is cut off: the
+	// library's HTTP POST). A failed write then says nothing about delivery.
+	AmbiguousCancel bool
+	RefusedOpens    []uint64 // ids of header-only envelopes a strict link refused for a done context
 
 	mu       sync.Mutex
 	inflight []*pendingWrite
@@ -360,6 +366,11 @@ func (l *Link) write(ctx context.Context, rpc *Rpc) error {
 			return err
 		}
 		if l.Cfg.Strict && ctx.Err() != nil {
+			if rpc.GetHeader() != nil && rpc.GetBody() == nil && rpc.GetTrailer() == nil && rpc.GetReset_() == nil {
+				// an open the transport refused because its context was done: the
+				// sender did try to open the stream (the wire rules look at this)
+				l.RefusedOpens = append(l.RefusedOpens, rpc.GetId())
+			}
 			l.mu.Unlock()
 			return ctx.Err()
 		}
@@ -378,6 +389,11 @@ func (l *Link) write(ctx context.Context, rpc *Rpc) error {
 			case <-w:
 				continue
 			case <-ctx.Done():
+				if rpc.GetHeader() != nil && rpc.GetBody() == nil && rpc.GetTrailer() == nil && rpc.GetReset_() == nil {
+					l.mu.Lock()
+					l.RefusedOpens = append(l.RefusedOpens, rpc.GetId())
+					l.mu.Unlock()
+				}
 				return ctx.Err()
 			}
 		}
@@ -441,8 +457,16 @@ func (l *Link) write(ctx context.Context, rpc *Rpc) error {
 				}
 			}
 			l.mu.Unlock()
+			if l.AmbiguousCancel {
+				l.env.Note("link.delivered-but-write-failed")
+				return ctx.Err()
+			}
 			return nil // already delivered
 		}
+	}
+	if l.AmbiguousCancel && ctx.Err() != nil {
+		l.env.Note("link.delivered-but-write-failed")
+		return ctx.Err()
 	}
 	return nil
 }
